@@ -278,10 +278,10 @@ func TestVF_C12(t *testing.T) {
 	defer r.Finish()
 	r.Rule("case = strictly increasing list of series refs (empty, singleton, 2..200, 200..5200, 14000..74000 entries; thorough also 100000..300000; gaps dense, x16, 1-, 2-, 5-byte varints, mixed, up to 2^40 / 2^56, constant => compressed and uncompressed snappy chunks, varints straddling 64 KiB chunk boundaries) " +
 		"x 4 codec paths (dvs; dss via streamed encoder; dss via diffVarintEncodeNoHeader+snappyStreamedEncode; raw diff-varint iterator) x {decodePostings with pooling, explicit decode without pooling} x length hints {exact, 0, wrong}; " +
-		"oracle = index.NewListPostings on the original list: full expansion equal, and 3 random Next/Seek traces (targets below/equal/above the position, list elements +-1, beyond the end) give identical results and positions until the first false; two pooled iterators are kept open and advanced alternately; " +
+		"oracle = index.NewListPostings on the original list: full expansion equal, and 3 random Next/Seek traces (targets below/equal/above the position, list elements +-1, beyond the end) give identical results and positions until the first false; two pooled iterators over two different lists are kept open and advanced alternately; " +
 		"distinct = hash of list x codec; non-trivial = list not empty")
 	r.Assume("traces stop at the first false return (index.Postings contract); At() is not compared before the first successful Next/Seek; Seek(0) is not used as the very first call")
-	n := r.N(3000, 200000)
+	n := r.N(500, 8000)
 	r.Require(int64(n)*8, n)
 	for c := 0; c < n; c++ {
 		if !r.Want(c) {
@@ -297,6 +297,28 @@ func TestVF_C12(t *testing.T) {
 			hint = rng.Intn(2*len(list) + 2)
 		}
 		lh := vfc12ListHash(list)
+		// second, different list for the two-live-iterators check (small/medium only)
+		var list2 []storage.SeriesRef
+		var class2 string
+		var enc2dvs, enc2dss []byte
+		if len(list) > 0 && len(list) <= 6000 {
+			r2 := r.RandS("second", c)
+			for try := 0; try < 8; try++ {
+				list2, class2 = vfc12GenList(r2, false)
+				if len(list2) >= 50 && len(list2) <= 6000 {
+					break
+				}
+				list2 = nil
+			}
+			if list2 != nil {
+				var e1, e2 error
+				enc2dvs, e1 = diffVarintSnappyEncode(index.NewListPostings(list2), len(list2))
+				enc2dss, e2 = diffVarintSnappyStreamedEncode(index.NewListPostings(list2), len(list2))
+				if e1 != nil || e2 != nil {
+					list2 = nil // reported by the case that has this list as its own
+				}
+			}
+		}
 		for _, cd := range vfc12Codecs {
 			wit := func(extra map[string]any) map[string]any {
 				m := map[string]any{"codec": cd.name, "list_class": class, "length_hint": hint, "list_len": len(list), "list_head": vfc12Head(list, 5), "list_fnv64a": lh,
@@ -372,29 +394,33 @@ func TestVF_C12(t *testing.T) {
 						}
 					}
 				}
-				// (3) two pooled iterators open at once, advanced alternately: a buffer handed to one must
-				// not be reused for the other while both are live
-				if len(list) > 0 && len(list) <= 6000 {
+				// (3) two pooled iterators over DIFFERENT lists open at once, advanced alternately: a pooled
+				// buffer handed to one must not be reused for the other while both are live
+				if len(list) > 0 && len(list) <= 6000 && len(list2) > 0 && cd.name != vfc12Codecs[3].name {
+					enc2 := enc2dvs
+					if cd.name != vfc12Codecs[0].name {
+						enc2 = enc2dss
+					}
 					a, errA := cd.decode(enc, true)
-					b, errB := cd.decode(enc, true)
+					b, errB := cd.decode(enc2, true)
 					if errA != nil || errB != nil {
-						r.Violation(c, "decode-error:"+cd.name, fmt.Sprintf("decoding twice failed: %v / %v", errA, errB), wit(nil))
+						r.Violation(c, "decode-error:"+cd.name, fmt.Sprintf("decoding two encodings failed: %v / %v", errA, errB), wit(nil))
 						return
 					}
 					r.Eval(1)
 					step := 1 + rng.Intn(7)
 					ia, ib := 0, 0
 					bad := ""
-					for bad == "" && (ia < len(list) || ib < len(list)) {
+					for bad == "" && (ia < len(list) || ib < len(list2)) {
 						for s := 0; s < step && ia < len(list) && bad == ""; s++ {
 							if !a.Next() || a.At() != list[ia] {
-								bad = fmt.Sprintf("first iterator wrong at entry %d", ia)
+								bad = fmt.Sprintf("the iterator over the case's list is wrong at entry %d (At=%d, want %d)", ia, a.At(), list[ia])
 							}
 							ia++
 						}
-						for s := 0; s < step+1 && ib < len(list) && bad == ""; s++ {
-							if !b.Next() || b.At() != list[ib] {
-								bad = fmt.Sprintf("second iterator wrong at entry %d", ib)
+						for s := 0; s < step+1 && ib < len(list2) && bad == ""; s++ {
+							if !b.Next() || b.At() != list2[ib] {
+								bad = fmt.Sprintf("the iterator over the second list is wrong at entry %d (At=%d, want %d)", ib, b.At(), list2[ib])
 							}
 							ib++
 						}
@@ -402,7 +428,7 @@ func TestVF_C12(t *testing.T) {
 					a.close()
 					b.close()
 					if bad != "" {
-						r.Violation(c, "interleaved-iterators-differ:"+cd.name, fmt.Sprintf("two pooled iterators over the same encoding, advanced alternately: %s (%s)", bad, class), wit(nil))
+						r.Violation(c, "interleaved-iterators-differ:"+cd.name, fmt.Sprintf("two pooled iterators over two different encodings, advanced alternately: %s (%s; second list %s)", bad, class, class2), wit(map[string]any{"second_list_class": class2, "second_list_head": vfc12Head(list2, 5)}))
 					}
 				}
 			})
